@@ -59,11 +59,11 @@ GROUPS = {
     'num': ['number'],
     'run': ['vm_struct', 'run'],
     'gc': ['gc'],
-    'heap': ['gc', 'vcell', 'stack', 'heap'],
+    'heap': ['gc', 'vcell', 'stack', 'vm_struct', 'continuation', 'heap'],
     'stack': ['vcell', 'stack'],
     'globenv': ['vcell', 'globenv'],
     'vector': ['vector'],
-    'gcroots': ['vcell', 'stack', 'globenv', 'heap_model', 'vm_struct', 'run_gc'],
+    'gcroots': ['vcell', 'stack', 'globenv', 'heap_model', 'vm_struct', 'continuation', 'run_gc'],
     'cont': ['vcell', 'stack', 'vm_struct', 'continuation', 'builtin_mod', 'builtin_procedure'],
     'builtins': ['vcell', 'stack', 'vm_struct', 'builtin_mod', 'builtin_vector', 'builtin_list'],
     'compile': ['vm_struct', 'vm_prepare', 'lambda', 'compile', 'builtin_procedure_eval'],
@@ -90,7 +90,7 @@ PROPS = {
             'assumptions': [
                 'scope: the collector mechanisms of heap.rs / gc.rs (Map, alloc, free, put, sweep, mark, mark_vcell); root enumeration in Vm::run_gc and the claim that run_one never dereferences a free cell are NOT decided',
                 'termination of mark / mark_vcell is not proved (exec_allows_no_decreases_clause)',
-                'Heap::grow, Map::get/new/resize: contracts assumed on the Verus side (Kani harnesses listed cover Map::get completely, new/resize bounded); mark_continuation is verified: it walks the saved stack through the opaque iterator of Stack::iter (contract proved in unit stack, same group), then marks the saved ip and ep; Continuation itself is opaque (private fields, derive over a tuple): its getters stack / ip / ep carry assumed one-line contracts and cont_kid is defined over them',
+                'Heap::grow, Map::get/new/resize: contracts assumed on the Verus side (Kani harnesses listed cover Map::get completely, new/resize bounded); mark_continuation is verified: it walks the saved stack through the opaque iterator of Stack::iter (contract proved in unit stack, same group), then marks the saved ip and ep; cont_kid is defined over the views of unit continuation (same group), whose getters are verified',
                 'payload views vector_view/env_view and the child relations cont_kid/lambda_kid/vkid are uninterpreted; axiom_vkids defines vkid by cases (trusted)',
                 'interior-mutable payloads (Vector, LexicalEnvironment) are treated as values: nothing mutates them during a collection', 'root enumeration (group gcroots): Vm::run_gc is verified to have marked, at the point where it calls sweep, the symbol of every global binding, the object of every global slot, whatever the live stack slots 0..=sp refer to, the accumulator, the code object of %ip and %ep, with the marked set closed under children (mark_ok since entry), and to leave stack, registers, accumulator and globals alone.  Its three `.for_each(|it| ..)` statements (closures capturing &mut self.heap, which Verus refuses) are desugared mechanically into the for loops they are defined to be, `.filter_map(|it| F).for_each(..)` into `for it in .. { if let Some(it) = F { .. } }` (pre-rewrite for_each_loops); the two f64 utilisation comparisons become an unspecified boolean of their operands (pre-rewrite f64_gates: Verus has no usize -> f64 cast), so run_gc is verified for both outcomes of each gate.  Stack::iter_to_sp and GlobalEnvironment::iter_bindings / iter_slots are verified in the same group (exactly the live slots; every bound symbol; every slot).  Heap is OPAQUE in this group: Heap::mark / mark_vcell are declared with the very clause texts unit heap proves on the real bodies (specs/heap_model.py imports specs/heap_mark.py), over uninterpreted views.  Assumed: Heap::sweep is callable at that point -- unit heap verifies sweep under the full representation invariant Heap::wf, which marking preserves only if no FREE cell gets marked, i.e. if no free cell is reachable (the mutator-side half of C03: a whole-history invariant that no contract here decides); and that the cells reachable from the roots are the ones the child relations ckid / vkid name (axiom_vkids)',
                 'no Symbol cell is written except through put/maybe_put (get_at_index_mut is outside the contract)',
@@ -130,7 +130,7 @@ PROPS = {
     'C05': {'groups': ['cont', 'runone', 'heap'], 'search': 'search_cont',
             'assumptions': [
                 'scope: the capture / restore laws of Stack and Vm (to_continuation, restore_continuation, push, pop, grow, clear) and the call/cc procedure (capture after popping argument count and receiver, before the instruction pointer is moved back; receiver returned; continuation object and argc 1 pushed); the invocation arm of run_one (CALL / TCALL with a continuation in %acc) is verified in group runone: for an invocation with one argument (the domain of the property): pop the argument count and the value cell, restore the captured control state, deliver that very cell in %acc; nothing is demanded of (k) or (k v w ..); run_one there is scoped by precondition to call instructions (see C04) and requires the capture to be well-formed and no longer than the running stack', 'Vm::pop (the dereferencing pop, not used by the invocation arm) carries an assumed contract so that a change to it stays decidable',
-                'Continuation is opaque to Verus (derive(Clone) over a tuple field, private fields): its four getters and the struct literal in Vm::to_continuation carry assumed contracts',
+                'struct Continuation derives Clone / Eq over a tuple field, which Verus cannot ingest: it is wrapped with #[verifier::external_derive] (the derived impls stay external), its private fields are read through closed spec functions, and its four getters and the struct literal in Vm::to_continuation are verified (they were assumed until the last day)',
                 'restore_continuation requires the saved stack to be no longer than the running one; this holds because stacks never shrink (every Stack operation under contract keeps or doubles the length) but is a whole-history fact, assumed at the call site',
                 '<[T]>::to_vec / clone_from_slice specs assumed',
             ]},
